@@ -17,6 +17,7 @@ pub mod c08;
 pub mod c08b;
 pub mod cycle;
 pub mod c11;
+pub mod c10;
 
 use report::{Evidence, Violation};
 
@@ -72,6 +73,7 @@ fn cmd_check(args: &[String]) -> i32 {
     match id.as_str() {
         "C08" => check_c08(seed, tier),
         "C11" => check_c11(seed, tier),
+        "C10" => check_c10(seed, tier),
         "C03" => check_cycle(cycle::Which::C03, seed, tier),
         "C04" => check_cycle(cycle::Which::C04, seed, tier),
         other => {
@@ -146,6 +148,25 @@ fn check_c11(seed: u64, tier: &str) -> i32 {
     report::finish(ev, violations)
 }
 
+fn check_c10(seed: u64, tier: &str) -> i32 {
+    let mut ev = Evidence::new(
+        "C10", tier, seed, "exploration",
+        "guest-fault injection: a generated base program S1;M1;..;Sn;Mn (Mi = unique marker print) whose fault-free run under the real binary exits 0 with empty          stderr; one faulting statement of a class (45 classes of undefined operation) wrapped at a placement (top level, after a partial line, loop iteration,          called function, inherited method, argument list, print arguments, compound array initialiser, nested blocks, conditional branch) inserted at every          statement position k; run through `fml run` or parse|compile|execute, debug or release, stdout to pipe or file, with short-write/EINTR plans on fd 1.          Plus token-mutated/truncated sources (claim only when `fml parse` rejects) and stress templates inside the stated bounds (cycles, 10^3 chains, 10^5 call          depth, nesting 200). Every evaluation injects a fault or a malformed/stress input, so all are non-trivial; distinct = distinct (base digest, position, class,          placement, path, profile, channel, plan) / distinct rejected source / distinct (template, profile, path).",
+    );
+    ev.assumptions = vec![
+        "the expected stdout prefix comes from the fault-free run of the same base under the same binary (oracle by construction, no reference interpreter)".into(),
+        "a failing print may have emitted any prefix of its own format before detecting the argument mismatch; every other fault class prints nothing itself".into(),
+        "children run with an 8 MiB stack and a 20 s CPU watchdog; a watchdog kill is never a verdict".into(),
+    ];
+    need_shim();
+    let violations = c10::run(seed, tier, &mut ev);
+    ev.extra.insert("components".into(), serde_json::json!({
+        "real": ["the unmodified fml CLI (run, parse, compile, execute) as child processes, debug and release builds", "kernel pipes and files"],
+        "stub": ["libfmlsim.so: write() outcomes on fd 1, getrandom", "personality(ADDR_NO_RANDOMIZE), scrubbed environment"],
+    }));
+    report::finish(ev, violations)
+}
+
 fn cmd_replay(args: &[String]) -> i32 {
     let path = match args.first() {
         Some(p) => p,
@@ -175,6 +196,7 @@ fn cmd_replay(args: &[String]) -> i32 {
         c08::ENGINE_A => c08::replay(&replay),
         cycle::ENGINE => cycle::replay(&replay),
         c11::ENGINE => { need_shim(); c11::replay(&replay) }
+        c10::ENGINE => { need_shim(); c10::replay(&replay) }
         c08b::ENGINE_B => { need_shim(); c08b::replay(&replay) }
         other => Err(format!("unknown engine `{}`", other)),
     };
